@@ -9,6 +9,7 @@ for d in seeded/*/; do
   ok=0; for p in $PAT; do case "$n" in $p*) ok=1;; esac; done
   [ $ok = 1 ] || continue
   [ -f "$d/meta.json" ] || continue
+  if /venv/bin/python -c "import json,sys;sys.exit(0 if json.load(open('$d/meta.json')).get('not_caught') else 1)"; then echo "SKIPPED $n (recorded as not caught, see DESIGN 10.5)"; continue; fi
   prop=$(/venv/bin/python -c "import json;m=json.load(open('$d/meta.json'));print(m.get('check_with') or m['property'])")
   out=$(/verif/tools/try_mutation.sh "/verif/$d/patch.diff" $prop --tier quick 2>&1 | tail -1)
   case "$out" in *exit=1*) echo "CAUGHT  $n ($prop)";; *) echo "MISSED  $n ($prop) $out"; rc=1;; esac
